@@ -3485,8 +3485,10 @@ class __implementations__:
 
     @implements(numpy.vdot)
     def vdot(a: IntoArray, b: IntoArray, axes: Optional[Union[int, Sequence[int]]] = None) -> Array:
-        a, b = broadcast_arrays(a, b)
-        return numpy.sum(numpy.conjugate(a) * b, range(a.ndim))
+        a, b = numpy.ravel(Array.cast(a)), numpy.ravel(Array.cast(b))
+        if a.shape != b.shape:
+            raise ValueError(f'cannot compute the vdot of arrays with sizes {a.shape[0]} and {b.shape[0]}')
+        return numpy.sum(numpy.conjugate(a) * b, 0)
 
     @implements(numpy.dot)
     def dot(a: IntoArray, b: IntoArray) -> Array:
